@@ -1546,13 +1546,12 @@ class DiskRefsContainer(RefsContainer):
                 # Never pack HEAD
                 continue
             if all or ref.startswith(LOCAL_TAG_PREFIX):
-                try:
-                    sha = self[ref]
-                    if sha:
-                        refs_to_pack[ref] = sha
-                except KeyError:
-                    # Broken ref, skip it
-                    pass
+                contents = self.read_ref(ref)
+                if not contents or contents.startswith(SYMREF):
+                    # Broken ref, or a symbolic ref: packed-refs cannot
+                    # represent those, they stay loose (as with git)
+                    continue
+                refs_to_pack[ref] = ObjectID(contents)
 
         if refs_to_pack:
             # The values were read without holding the ref locks: do not
